@@ -20,7 +20,7 @@ contract(M + "PCSO.add_constraint_eq_zero", props=["C03", "C16", "C19"], taint=[
                   "implies(sden(H) == 0, %s == 0)" % _F,
                   "implies(sden(H) != 0, %s >= lam)" % _F,
                   "self._ancilla == old(self._ancilla)",
-                  "wf(self)", "result is self", "implies(old(bk(self)), bk(self))"])
+                  "wf(self)", "result is self", "implies(old(bk(self)), bk(self))", "implies(old(keys_ancbelow(self, gn())) and keys_ancbelow(H, gn()) and gn() >= self._ancilla, keys_ancbelow(self, gn()))"])
 
 # ---------------------------------------------------------------------------------- inequalities: same composition
 _N = "(self._ancilla - old(self._ancilla))"
@@ -41,7 +41,7 @@ def _ineq(name, holds, wit):
                       "implies((%s) and %s == 0, %s == 0)" % (holds, _N, _F),
                       "implies((%s) and log_trick and slackval(old(self._ancilla), %s, True) == %s, %s == 0)"
                       % (holds, _N, wit, _F),
-                      "self._ancilla >= old(self._ancilla)", "wf(self)", "result is self", "implies(old(bk(self)), bk(self))"])
+                      "self._ancilla >= old(self._ancilla)", "wf(self)", "result is self", "implies(old(bk(self)), bk(self))", "implies(old(keys_ancbelow(self, gn())) and keys_ancbelow(H, gn()) and gn() >= self._ancilla, keys_ancbelow(self, gn()))"])
 
 
 _ineq("add_constraint_le_zero", "sden(H) <= 0", "-sden(H)")
@@ -59,4 +59,4 @@ contract(M + "PCSO.add_constraint_ne_zero", props=["C03", "C16", "C19"], taint=[
          ensures=[_F + " >= 0",
                   "implies(sden(H) == 0 and not warned_unsat(), %s >= lam)" % _F,
                   "implies(sden(H) != 0 and %s == 0, %s == 0)" % (_N, _F),
-                  "self._ancilla >= old(self._ancilla)", "wf(self)", "result is self", "implies(old(bk(self)), bk(self))"])
+                  "self._ancilla >= old(self._ancilla)", "wf(self)", "result is self", "implies(old(bk(self)), bk(self))", "implies(old(keys_ancbelow(self, gn())) and keys_ancbelow(H, gn()) and gn() >= self._ancilla, keys_ancbelow(self, gn()))"])
